@@ -103,6 +103,14 @@ def instances(tier: str) -> list[dict]:
             for O in itertools.combinations(nodes, k):
                 for s in cands[: (1 if tier == "quick" else 2)]:
                     out.append({"part": "batch-objects", "tree": tree, "naming": naming, "sk": "named", "S": [s], "ok": "named" if k == 2 else "sub", "O": list(O)})
+    # regexes WRITTEN LIKE A MODULE NAME (unescaped dots, with or without anchors) on a universe holding a look-alike
+    # module: 'a.x.y$' matches a.x.y and a.x_y - a regex means what re.match says, never 'the module of that name'
+    lk = concrete("T4k", "adv")
+    for n in [m for m in lk if "." in m]:
+        for rx in (n + "$", "^" + n + "$", n, "^" + n):
+            for other in (lk[0], lk[3]):
+                if rx != n or other == lk[0]:
+                    out.append({"part": "regex", "tree": "T4k", "naming": "adv", "rx": rx, "other": other})
     # object / subject batches holding a module together with one of its own sub modules (every tier)
     nested = concrete("T4n", "neutral")  # p; p.a (p.a.x); p.b
     pa, pax, pb = nested[1], nested[2], nested[3]
@@ -412,7 +420,7 @@ def run(tier: str, only: str | None = None) -> int:
         "seeded_larger_universes": f"{sum(1 for i in items if 'window' in i)} random forests of 8-12 modules, concrete background relation, 10-11 symbolic pairs each (VERIF_SEED)",
         "namings": sorted({i["naming"] for i in items}),
         "path_cap_per_summary": CAPS[tier],
-        "regex_family": "anchored names, prefixes, last-char classes, two-name alternations (parenthesised, and top-level with a bare component as an alternative), depth and root patterns, two never-matching patterns; on subject or object side; all 12 shapes",
+        "regex_family": "regexes written like a module name (unescaped dots, optional ^ / $) on a universe with a look-alike module (a.x.y / a.x_y); anchored names, prefixes, last-char classes, two-name alternations (parenthesised, and top-level with a bare component as an alternative), depth and root patterns, two never-matching patterns; on subject or object side; all 12 shapes",
         "partial_family": "name, *last, name*, *last*, *.last, never-matching, bare *",
         "batches": "2-3 subjects (named / sub modules of, related modules included) x all shapes; 2-3 objects x plain should / should_not",
     }
